@@ -167,4 +167,89 @@ have been applied to the simulation in the same order. -/
 def histDyn : Dyn (List (Time × Settings)) (List (Time × Settings)) :=
   { init := fun _ => [], step := fun _ h t st => (h ++ [(t, st)], h ++ [(t, st)]) }
 
+/-! ### wave 2: mechanism facts of the restore and of the state write
+
+* `replayIsComplete` — `_replay_session` re-runs EVERY logged step.  The defective variant replays only up to the
+  last logged step that carried settings ("later steps are computed on demand"): the steps after it are not in the
+  simulation's memory when the session goes on, so settings given AFTER the restart are applied to them as well.
+* `atomicWrite` — `FileAdapter._save_instance` writes a temporary file and renames it onto the state file (proposed
+  repair `C20-atomic-state-write`).  A crash inside the write then leaves the previous state file intact: the
+  request in progress is lost as a whole (it was never answered), the instance is not. -/
+
+structure Cfg where
+  replayIsComplete : Bool
+  atomicWrite : Bool
+deriving DecidableEq, Repr
+
+def Cfg.good (c : Cfg) : Bool := c.replayIsComplete
+
+/-- the logged steps up to and including the last one that carried settings -/
+def uptoLastSettings : List (Time × Settings) → List (Time × Settings)
+  | [] => []
+  | e :: rest =>
+    match uptoLastSettings rest with
+    | [] => if e.2 = [] then [] else [e]
+    | r => e :: r
+
+def restoreC (c : Cfg) (d : Dyn σ ρ) (p : Persist) : Inst σ :=
+  { spec := p.spec, step := p.step, log := p.log,
+    sim := replaySim d p.spec (if c.replayIsComplete then p.log else uptoLastSettings p.log) }
+
+def effC (c : Cfg) (d : Dyn σ ρ) (s : Server σ) (id : Nat) : Option (Inst σ) :=
+  match s.live id with
+  | some i => some i
+  | none => (readable s.files id).map (restoreC c d)
+
+def restartC (c : Cfg) (d : Dyn σ ρ) (s : Server σ) : Server σ :=
+  { s with live := fun id => (readable s.files id).map (restoreC c d) }
+
+def stepCC (c : Cfg) (d : Dyn σ ρ) (s : Server σ) : Op → Server σ × Resp ρ
+  | .start id spec =>
+    if s.used id then (s, .none)
+    else ({ s with live := upd s.live id (some (fresh d spec)), used := fun x => x = id || s.used x }, .none)
+  | .step id st =>
+    match effC c d s id with
+    | none => (s, .invalid)
+    | some i =>
+      let r := runStep d i st
+      ({ s with live := upd s.live id (some r.1), files := upd s.files id (some (.ok (persist r.1))) }, r.2)
+  | .crash => (restartC c d s, .none)
+  | .crashInWrite id _ =>
+    match effC c d s id with
+    | none => (restartC c d s, .none)
+    | some _ =>
+      if c.atomicWrite then (restartC c d s, .none)      -- only the temporary file is torn
+      else (restartC c d { s with files := upd s.files id (some .torn) }, .none)
+
+def runCC (c : Cfg) (d : Dyn σ ρ) : Server σ → List Op → List (Resp ρ)
+  | _, [] => []
+  | s, op :: ops => (stepCC c d s op).2 :: runCC c d (stepCC c d s op).1 ops
+
+def finalCC (c : Cfg) (d : Dyn σ ρ) (s : Server σ) (ops : List Op) : Server σ :=
+  ops.foldl (fun s op => (stepCC c d s op).1) s
+
+/-- with an atomic write, a crash inside the write is a crash before the request: the request is lost as a whole -/
+def atomize (atomic : Bool) : Op → Op
+  | .crashInWrite id st => if atomic then .crash else .crashInWrite id st
+  | op => op
+
+/-- A simulation that computes on demand, like the SD model's memo: the state is the constant in force and the
+values memoised so far; a step at time `t` first applies its settings (a new constant), then computes every grid
+point up to `t` that is not memoised yet — with the constant in force NOW — and answers with all values.  Replaying
+every logged step memoises each grid point under the constant of its own step; skipping steps leaves them to
+whatever constant comes later. -/
+def gridUpTo (spec : Spec) (t : Time) : List Time :=
+  (List.range ((t - spec.start) / spec.dt + 1).toNat).map fun (k : Nat) => spec.start + (k : Int) * spec.dt
+
+def fillMemo (cst : String) (memo : List (Time × String)) : List Time → List (Time × String)
+  | [] => memo
+  | t :: ts => if (memo.lookup t).isSome then fillMemo cst memo ts else fillMemo cst (memo ++ [(t, cst)]) ts
+
+def lazyDyn : Dyn (String × List (Time × String)) (List (Time × String)) :=
+  { init := fun _ => ("1", []),
+    step := fun spec s t st =>
+      let cst := match st with | [] => s.1 | (_, v) :: _ => v
+      let memo := fillMemo cst s.2 (gridUpTo spec t)
+      ((cst, memo), memo) }
+
 end Bptk.C20
